@@ -1083,7 +1083,7 @@ func (v *Verifier) window(s *State, arr, off, n *Term) *Term {
 		rev := Forall([]*Term{a}, Implies(And(Le(off, a), Lt(a, Add(off, n))), Eq(Select(w, Sub(a, off)), Select(arr, a))), mk("select", es, arr, a))
 		ax = And(ax, rev)
 	}
-	wi := &winInfo{c: w, axiom: ax, kind: "win|" + n.String()}
+	wi := &winInfo{c: w, axiom: ax, kind: "len|" + n.String()}
 	v.windows[key] = wi
 	s.pc = append(s.pc, ax)
 	v.extLemmas(s, wi)
